@@ -142,28 +142,27 @@ def rehash (hash : κ → Nat) (primes : List Nat) (s : State κ) : State κ :=
   | (newLen, some i) => resize hash { s with tableLengthIndex := i } newLen
   | (newLen, none) => resize hash s newLen
 
-/-- `arrayset::addNewKeyEntry(key, index)`; returns the new entry -/
+/-- second half of `arrayset::addNewKeyEntry` (from `count++` on); returns the new entry -/
+def addNewCore (s : State κ) (key : κ) (index : Nat) : State κ × Nat :=
+  let s := { s with count := s.count + 1 }
+  let e := s.count                                            -- NewEntry(key, count)
+  let s := { s with key := s.key.set e key, next := s.next.set e 0, idx := s.idx.set e s.count }
+  let s :=
+    if s.defaultEntry = 0 then { s with defaultEntry := e, next := s.next.set e 0 }
+    else { s with next := s.next.set e (tableGet s index) }
+  let s := tableSet s index e
+  let s := revSet s s.count e
+  (s, e)
+
+/-- `arrayset::addNewKeyEntry(key, index)` -/
 def addNewKeyEntry (hash : κ → Nat) (primes : List Nat) (s : State κ) (key : κ) (index : Nat) :
     Option (State κ × Nat) :=
-  let r : Option (State κ × Nat) :=
-    if s.count ≥ s.threshold then
-      let s1 := rehash hash primes s
-      -- `Hash % 0`, or `reverseTable[count]` past the end: undefined behaviour
-      if s1.tableLength = 0 ∨ s1.tableLength < s1.count + 1 then none
-      else some (s1, hash key % s1.tableLength)
-    else some (s, index)
-  match r with
-  | none => none
-  | some (s, index) =>
-    let s := { s with count := s.count + 1 }
-    let e := s.count                                          -- NewEntry(key, count)
-    let s := { s with key := s.key.set e key, next := s.next.set e 0, idx := s.idx.set e s.count }
-    let s :=
-      if s.defaultEntry = 0 then { s with defaultEntry := e, next := s.next.set e 0 }
-      else { s with next := s.next.set e (tableGet s index) }
-    let s := tableSet s index e
-    let s := revSet s s.count e
-    some (s, e)
+  if s.count ≥ s.threshold then
+    let s1 := rehash hash primes s
+    -- `Hash % 0`, or `reverseTable[count]` past the end: undefined behaviour
+    if s1.tableLength = 0 ∨ s1.tableLength < s1.count + 1 then none
+    else some (addNewCore s1 key (hash key % s1.tableLength))
+  else some (addNewCore s key index)
 
 /-- `arrayset::addKeyEntry(key)` -/
 def addKeyEntry (hash : κ → Nat) (primes : List Nat) (s : State κ) (key : κ) : Option (State κ × Nat) :=
